@@ -26,4 +26,12 @@ dirs=$(ls -d $out/data/* | tr '\n' ',' | sed 's/,$//')
 # per check: which blocks only this check reaches is not needed; list blocks nobody reached
 awk 'NR>1 && $3==0 {print $1}' "$out/all.txt" | grep -v "^verifharness\|_test.go\|/parsleyfakes/\|/test/" | sort -t: -k1,1 -k2,2n > "$out/uncovered.txt"
 echo "uncovered library blocks: $(wc -l < $out/uncovered.txt) (see $out/uncovered.txt)"
+# the committed record: percentages and the uncovered blocks with their source line
+mkdir -p coverage
+{ echo "# library statement coverage under the $tier tier of: $ids"; echo "# repository head: $(git -C /repo rev-parse --short HEAD), VERIF_SEED=${VERIF_SEED:-1}"; grep -v verifharness "$out/percent.txt"; } > coverage/percent-$tier.txt
+while IFS= read -r b; do
+  f=${b%%:*}; l=${b#*:}; l=${l%%.*}
+  src=$(sed -n "${l}p" "/repo/${f#github.com/opsidian/parsley/}" | sed 's/^[ \t]*//' | cut -c1-110)
+  echo "$b  |  $src"
+done < "$out/uncovered.txt" > coverage/uncovered-$tier.txt
 rm -rf "$out/scratch" harness/bin/vcheck-cover
